@@ -164,7 +164,11 @@ End ObsExp.
 
 (* ---------- statements: unfolding equations and induction with the nested blocks ---------- *)
 Definition fbody (c : cfg0) (d : nat) (b : blk) : list tok :=
-  if blk_empty b then [sp; kw "end"] else eol c :: pblk c (S d) b ++ indent c d ++ [kw "end"].
+  if blk_empty b then [sp; kw "end"]
+  else match fun_guard c b with
+       | Some s1 => sp :: psimple c s1 ++ [sp; kw "end"]
+       | None => eol c :: pblk c (S d) b ++ indent c d ++ [kw "end"]
+       end.
 Section Unfold.
 Variables (c : cfg0) (d : nat).
 Notation pexp := (Fmt0.pexp c).
@@ -172,7 +176,11 @@ Notation pexps := (Fmt0.pexps c).
 Lemma p_do b : pstmt c d (SDo b) = kw "do" :: eol c :: pblk c (S d) b ++ indent c d ++ [kw "end"]. Proof. reflexivity. Qed.
 Lemma p_while e b : pstmt c d (SWhile e b) = kw "while" :: sp :: pexp e ++ sp :: kw "do" :: eol c :: pblk c (S d) b ++ indent c d ++ [kw "end"]. Proof. reflexivity. Qed.
 Lemma p_repeat b e : pstmt c d (SRepeat b e) = kw "repeat" :: eol c :: pblk c (S d) b ++ indent c d ++ kw "until" :: sp :: pexp e. Proof. reflexivity. Qed.
-Lemma p_if e t r : pstmt c d (SIf e t r) = kw "if" :: sp :: pexp e ++ sp :: kw "then" :: eol c :: pblk c (S d) t ++ pels c d r ++ indent c d ++ [kw "end"]. Proof. reflexivity. Qed.
+Lemma p_if e t r : pstmt c d (SIf e t r) =
+  match if_guard c t r with
+  | Some s1 => kw "if" :: sp :: pexp e ++ sp :: kw "then" :: sp :: psimple c s1 ++ [sp; kw "end"]
+  | None => kw "if" :: sp :: pexp e ++ sp :: kw "then" :: eol c :: pblk c (S d) t ++ pels c d r ++ indent c d ++ [kw "end"]
+  end. Proof. reflexivity. Qed.
 Lemma p_numfor v a b st body : pstmt c d (SNumFor v a b st body) =
   kw "for" :: sp :: TIdent v :: sp :: kw "=" :: sp :: pexp a ++ kw "," :: sp :: pexp b ++
   (match st with Some x => kw "," :: sp :: pexp x | None => [] end) ++ sp :: kw "do" :: eol c :: pblk c (S d) body ++ indent c d ++ [kw "end"]. Proof. reflexivity. Qed.
@@ -249,10 +257,41 @@ Definition Ie (i : item) : Prop := forall d, obs (pitem c d (nitem i)) = obs (pi
 Definition Be (b : blk) : Prop := forall d, obs (pblk c d (nblk b)) = obs (pblk c d b).
 Lemma blk_empty_nblk b : blk_empty (nblk b) = blk_empty b.
 Proof. destruct b as [is tl]. destruct is; reflexivity. Qed.
+(* the collapsed forms: the guards do not see the expressions, the statement inside is printed by psimple *)
+Lemma simple_stmt_nstmt s : simple_stmt (nstmt s) = simple_stmt s.
+Proof.
+  destruct s; try reflexivity; cbn [nstmt simple_stmt].
+  - destruct ns as [|n0 [|n1 r]]; try reflexivity. unfold nexps. rewrite map_length. reflexivity.
+  - destruct vs as [|v0 [|v1 r]]; try reflexivity. cbn [nexps map]. unfold nexps. rewrite map_length. reflexivity.
+Qed.
+Lemma simple_blk_nblk b : simple_blk (nblk b) = option_map nstmt (simple_blk b).
+Proof.
+  destruct b as [is tl]. destruct is as [|[l bl s t] [|i2 r]]; try reflexivity.
+  - cbn [nblk map nitem simple_blk]. destruct l, t, tl; try reflexivity. rewrite simple_stmt_nstmt. destruct (simple_stmt s); reflexivity.
+  - cbn [nblk map nitem simple_blk]. destruct l; try reflexivity. destruct t; reflexivity.
+Qed.
+Lemma if_guard_nblk t r : if_guard c (nblk t) (nels r) = option_map nstmt (if_guard c t r).
+Proof. unfold if_guard. destruct (collapse_if (collapse0 c)); [|reflexivity]. destruct r; try reflexivity. apply simple_blk_nblk. Qed.
+Lemma fun_guard_nblk b : fun_guard c (nblk b) = option_map nstmt (fun_guard c b).
+Proof. unfold fun_guard. destruct (collapse_fun (collapse0 c)); [apply simple_blk_nblk|reflexivity]. Qed.
+Lemma erase_psimple s : obs (psimple c (nstmt s)) = obs (psimple c s).
+Proof.
+  destruct s; try reflexivity.
+  - (* SLocal *) cbn [nstmt]. destruct es as [|e es']; [reflexivity|].
+    change (nexps (e :: es')) with (nexp Std e :: nexps es'). cbn [psimple]. congr.
+    change (nexp Std e :: nexps es') with (nexps (e :: es')). apply erase_pexps.
+  - (* SAssign *) cbn [nstmt psimple]. congr; apply erase_pexps.
+  - (* SCall *) cbn [nstmt psimple]. apply erase_pexp_nexp.
+  - (* SReturn *) cbn [nstmt]. destruct es as [|e es']; [reflexivity|].
+    change (nexps (e :: es')) with (nexp Std e :: nexps es'). cbn [psimple]. congr.
+    change (nexp Std e :: nexps es') with (nexps (e :: es')). apply erase_pexps.
+Qed.
 Lemma erase_fbody b : Be b -> forall d, obs (fbody c d (nblk b)) = obs (fbody c d b).
 Proof.
-  intros H d. unfold fbody. rewrite blk_empty_nblk. destruct (blk_empty b); [reflexivity|].
-  apply erase_cons. apply obs_app_congr; [apply H|reflexivity].
+  intros H d. unfold fbody. rewrite blk_empty_nblk, fun_guard_nblk. destruct (blk_empty b); [reflexivity|].
+  destruct (fun_guard c b) as [s1|]; cbn [option_map].
+  - congr. apply erase_psimple.
+  - apply erase_cons. apply obs_app_congr; [apply H|reflexivity].
 Qed.
 Lemma erase_concat_items is : Forall Ie is -> forall d, obs (List.concat (map (pitem c d) (map nitem is))) = obs (List.concat (map (pitem c d) is)).
 Proof.
@@ -264,21 +303,23 @@ Proof.
   assert (H : forall s, Ps s); [|split; [exact H|]].
   - apply (stmt_ind' Ps Qe Ie Be); unfold Ps, Qe, Ie, Be; intros.
     + (* SLocal *) cbn [nstmt]. destruct es as [|e es']; [reflexivity|].
-      change (nexps (e :: es')) with (nexp Std e :: nexps es'). cbn [pstmt]. congr.
+      change (nexps (e :: es')) with (nexp Std e :: nexps es'). cbn [pstmt psimple]. congr.
       change (nexp Std e :: nexps es') with (nexps (e :: es')). apply erase_pexps.
-    + (* SAssign *) cbn [nstmt pstmt]. congr; apply erase_pexps.
-    + (* SCall *) cbn [nstmt pstmt]. apply erase_pexp_nexp.
+    + (* SAssign *) cbn [nstmt pstmt psimple]. congr; apply erase_pexps.
+    + (* SCall *) cbn [nstmt pstmt psimple]. apply erase_pexp_nexp.
     + (* SDo *) cbn [nstmt]. rewrite !p_do. congr. apply H.
     + (* SWhile *) cbn [nstmt]. rewrite !p_while. congr; [apply erase_ncond|apply H].
     + (* SRepeat *) cbn [nstmt]. rewrite !p_repeat. congr; [apply H|apply erase_ncond].
-    + (* SIf *) cbn [nstmt]. rewrite !p_if. congr; [apply erase_ncond|apply H|apply H0].
+    + (* SIf *) cbn [nstmt]. rewrite !p_if, if_guard_nblk. destruct (if_guard c t r) as [s1|]; cbn [option_map].
+      * congr; [apply erase_ncond|apply erase_psimple].
+      * congr; [apply erase_ncond|apply H|apply H0].
     + (* SNumFor *) cbn [nstmt]. rewrite !p_numfor. congr; try apply erase_pexp_nexp; [|apply H].
       destruct st as [x|]; cbn [option_map]; congr. apply erase_pexp_nexp.
     + (* SGenFor *) cbn [nstmt]. rewrite !p_genfor. congr; [apply erase_pexps|apply H].
     + (* SFunction *) cbn [nstmt]. rewrite !p_function. congr. apply erase_fbody. exact H.
     + (* SLocalFunction *) cbn [nstmt]. rewrite !p_localfunction. congr. apply erase_fbody. exact H.
     + (* SReturn *) cbn [nstmt]. destruct es as [|e es']; [reflexivity|].
-      change (nexps (e :: es')) with (nexp Std e :: nexps es'). cbn [pstmt]. congr.
+      change (nexps (e :: es')) with (nexp Std e :: nexps es'). cbn [pstmt psimple]. congr.
       change (nexp Std e :: nexps es') with (nexps (e :: es')). apply erase_pexps.
     + (* SBreak *) reflexivity.
     + (* NoElse *) reflexivity.
@@ -305,10 +346,40 @@ Definition Ie' (i : item) : Prop := forall d, obs (pitem c d (smap_i fe i)) = ob
 Definition Be' (b : blk) : Prop := forall d, obs (pblk c d (smap_b fe b)) = obs (pblk c d b).
 Lemma blk_empty_smap b : blk_empty (smap_b fe b) = blk_empty b.
 Proof. destruct b as [is tl]. destruct is; reflexivity. Qed.
+Lemma simple_stmt_smap s : simple_stmt (smap_s fe s) = simple_stmt s.
+Proof.
+  destruct s; try reflexivity; cbn [smap_s simple_stmt].
+  - destruct ns as [|n0 [|n1 r]]; try reflexivity. rewrite map_length. reflexivity.
+  - destruct vs as [|v0 [|v1 r]]; try reflexivity. cbn [map]. rewrite map_length. reflexivity.
+Qed.
+Lemma simple_blk_smap b : simple_blk (smap_b fe b) = option_map (smap_s fe) (simple_blk b).
+Proof.
+  destruct b as [is tl]. destruct is as [|[l bl s t] [|i2 r]]; try reflexivity.
+  - cbn [smap_b map smap_i simple_blk]. destruct l, t, tl; try reflexivity. rewrite simple_stmt_smap. destruct (simple_stmt s); reflexivity.
+  - cbn [smap_b map smap_i simple_blk]. destruct l; try reflexivity. destruct t; reflexivity.
+Qed.
+Lemma if_guard_smap t r : if_guard c (smap_b fe t) (smap_r fe r) = option_map (smap_s fe) (if_guard c t r).
+Proof. unfold if_guard. destruct (collapse_if (collapse0 c)); [|reflexivity]. destruct r; try reflexivity. apply simple_blk_smap. Qed.
+Lemma fun_guard_smap b : fun_guard c (smap_b fe b) = option_map (smap_s fe) (fun_guard c b).
+Proof. unfold fun_guard. destruct (collapse_fun (collapse0 c)); [apply simple_blk_smap|reflexivity]. Qed.
+Lemma smap_psimple s : obs (psimple c (smap_s fe s)) = obs (psimple c s).
+Proof.
+  destruct s; try reflexivity.
+  - cbn [smap_s]. destruct es as [|e es']; [reflexivity|].
+    change (map fe (e :: es')) with (fe e :: map fe es'). cbn [psimple]. congr.
+    change (fe e :: map fe es') with (map fe (e :: es')). apply smap_pexps.
+  - cbn [smap_s psimple]. congr; apply smap_pexps.
+  - cbn [smap_s psimple]. apply Hfe.
+  - cbn [smap_s]. destruct es as [|e es']; [reflexivity|].
+    change (map fe (e :: es')) with (fe e :: map fe es'). cbn [psimple]. congr.
+    change (fe e :: map fe es') with (map fe (e :: es')). apply smap_pexps.
+Qed.
 Lemma smap_fbody b : Be' b -> forall d, obs (fbody c d (smap_b fe b)) = obs (fbody c d b).
 Proof.
-  intros H d. unfold fbody. rewrite blk_empty_smap. destruct (blk_empty b); [reflexivity|].
-  apply erase_cons. apply obs_app_congr; [apply H|reflexivity].
+  intros H d. unfold fbody. rewrite blk_empty_smap, fun_guard_smap. destruct (blk_empty b); [reflexivity|].
+  destruct (fun_guard c b) as [s1|]; cbn [option_map].
+  - congr. apply smap_psimple.
+  - apply erase_cons. apply obs_app_congr; [apply H|reflexivity].
 Qed.
 Lemma smap_concat_items is : Forall Ie' is -> forall d, obs (List.concat (map (pitem c d) (map (smap_i fe) is))) = obs (List.concat (map (pitem c d) is)).
 Proof.
@@ -319,21 +390,23 @@ Proof.
   assert (H : forall s, Ps' s); [|split; [exact H|]].
   - apply (stmt_ind' Ps' Qe' Ie' Be'); unfold Ps', Qe', Ie', Be'; intros.
     + (* SLocal *) cbn [smap_s]. destruct es as [|e es']; [reflexivity|].
-      change (map fe (e :: es')) with (fe e :: map fe es'). cbn [pstmt]. congr.
+      change (map fe (e :: es')) with (fe e :: map fe es'). cbn [pstmt psimple]. congr.
       change (fe e :: map fe es') with (map fe (e :: es')). apply smap_pexps.
-    + (* SAssign *) cbn [smap_s pstmt]. congr; apply smap_pexps.
-    + (* SCall *) cbn [smap_s pstmt]. apply Hfe.
+    + (* SAssign *) cbn [smap_s pstmt psimple]. congr; apply smap_pexps.
+    + (* SCall *) cbn [smap_s pstmt psimple]. apply Hfe.
     + (* SDo *) cbn [smap_s]. rewrite !p_do. congr. apply H.
     + (* SWhile *) cbn [smap_s]. rewrite !p_while. congr; [apply Hfe|apply H].
     + (* SRepeat *) cbn [smap_s]. rewrite !p_repeat. congr; [apply H|apply Hfe].
-    + (* SIf *) cbn [smap_s]. rewrite !p_if. congr; [apply Hfe|apply H|apply H0].
+    + (* SIf *) cbn [smap_s]. rewrite !p_if, if_guard_smap. destruct (if_guard c t r) as [s1|]; cbn [option_map].
+      * congr; [apply Hfe|apply smap_psimple].
+      * congr; [apply Hfe|apply H|apply H0].
     + (* SNumFor *) cbn [smap_s]. rewrite !p_numfor. congr; try apply Hfe; [|apply H].
       destruct st as [x|]; cbn [option_map]; congr. apply Hfe.
     + (* SGenFor *) cbn [smap_s]. rewrite !p_genfor. congr; [apply smap_pexps|apply H].
     + (* SFunction *) cbn [smap_s]. rewrite !p_function. congr. apply smap_fbody. exact H.
     + (* SLocalFunction *) cbn [smap_s]. rewrite !p_localfunction. congr. apply smap_fbody. exact H.
     + (* SReturn *) cbn [smap_s]. destruct es as [|e es']; [reflexivity|].
-      change (map fe (e :: es')) with (fe e :: map fe es'). cbn [pstmt]. congr.
+      change (map fe (e :: es')) with (fe e :: map fe es'). cbn [pstmt psimple]. congr.
       change (fe e :: map fe es') with (map fe (e :: es')). apply smap_pexps.
     + (* SBreak *) reflexivity.
     + (* NoElse *) reflexivity.
@@ -442,12 +515,33 @@ Definition Pc (s : stmt) : Prop := forall d, census (pstmt c d s) = lc (coms_s s
 Definition Qc (r : els) : Prop := forall d, census (pels c d r) = lc (coms_e r).
 Definition Ic (i : item) : Prop := forall d, census (pitem c d i) = lc (coms_i i).
 Definition Bc (b : blk) : Prop := forall d, census (pblk c d b) = lc (coms_b b).
+Lemma census_psimple s : census (psimple c s) = [].
+Proof.
+  destruct s; try reflexivity; cbn [psimple].
+  - destruct es; rewrite census_kw, census_sp; [apply census_pnames|]. rewrite census_app, census_pnames, census_sp, census_kw, census_sp. apply census_pexps.
+  - rewrite census_app, census_pexps, census_sp, census_kw, census_sp. apply census_pexps.
+  - apply census_pexp.
+  - destruct es; [reflexivity|]. rewrite census_kw, census_sp. apply census_pexps.
+Qed.
+(* a block that can be collapsed holds no comment *)
+Lemma simple_blk_coms b s1 : simple_blk b = Some s1 -> coms_b b = [].
+Proof.
+  destruct b as [is tl]. destruct is as [|[l bl s t] [|i2 r]]; try discriminate; cbn [simple_blk].
+  - destruct l; [|discriminate]. destruct t; [discriminate|]. destruct tl; [|discriminate]. destruct (simple_stmt s) eqn:S; [|discriminate]. intros _.
+    cbn [coms_b map List.concat coms_i app]. destruct s; try discriminate; reflexivity.
+  - destruct l; [|discriminate]. destruct t; discriminate.
+Qed.
+Lemma if_guard_coms t r s1 : if_guard c t r = Some s1 -> coms_b t = [] /\ r = NoElse.
+Proof. unfold if_guard. destruct (collapse_if (collapse0 c)); [|discriminate]. destruct r; try discriminate. intros H. split; [apply (simple_blk_coms t s1 H)|reflexivity]. Qed.
+Lemma fun_guard_coms b s1 : fun_guard c b = Some s1 -> coms_b b = [].
+Proof. unfold fun_guard. destruct (collapse_fun (collapse0 c)); [apply simple_blk_coms|discriminate]. Qed.
 Lemma census_fbody b d : Bc b -> census (fbody c d b) = lc (coms_b b).
 Proof.
-  intros H. unfold fbody. destruct b as [is tl]. destruct is as [|i r]; [destruct tl as [|t tl']|]; cbn [blk_empty].
-  - reflexivity.
-  - rewrite census_eol, census_app, H, census_indent. cbn [census norm_com]. rewrite app_nil_r. reflexivity.
-  - rewrite census_eol, census_app, H, census_indent. cbn [census norm_com]. rewrite app_nil_r. reflexivity.
+  intros H. unfold fbody. destruct (blk_empty b) eqn:E.
+  - destruct b as [is tl]. destruct is; [destruct tl|]; try discriminate. reflexivity.
+  - destruct (fun_guard c b) as [s1|] eqn:G.
+    + rewrite (fun_guard_coms b s1 G), census_sp, census_app, census_psimple. reflexivity.
+    + rewrite census_eol, census_app, H, census_indent. cbn [census norm_com]. rewrite app_nil_r. reflexivity.
 Qed.
 Opaque pblk.
 Lemma census_all : (forall s, Pc s) /\ (forall b, Bc b).
@@ -460,15 +554,18 @@ Proof.
     rewrite E, census_indent, census_app, H. cbn [coms_i]. rewrite !lc_app. f_equal. f_equal. destruct t; reflexivity. }
   assert (H : forall s, Pc s); [|split; [exact H|]].
   - apply (stmt_ind' Pc Qc Ic Bc); unfold Pc, Qc, Bc; intros; try (apply Hitem; assumption).
-    + destruct es; cbn [pstmt]; rewrite census_kw, census_sp; [apply census_pnames|].
+    + destruct es; cbn [pstmt psimple]; rewrite census_kw, census_sp; [apply census_pnames|].
       rewrite census_app, census_pnames, census_sp, census_kw, census_sp. apply census_pexps.
-    + cbn [pstmt]. rewrite census_app, census_pexps, census_sp, census_kw, census_sp. apply census_pexps.
-    + cbn [pstmt]. apply census_pexp.
+    + cbn [pstmt psimple]. rewrite census_app, census_pexps, census_sp, census_kw, census_sp. apply census_pexps.
+    + cbn [pstmt psimple]. apply census_pexp.
     + rewrite p_do, census_kw, census_eol, census_app, H, census_indent. cbn [census norm_com coms_s]. rewrite app_nil_r. reflexivity.
     + rewrite p_while, census_kw, census_sp, census_app, census_pexp, census_sp, census_kw, census_eol, census_app, H, census_indent. cbn [census norm_com coms_s]. rewrite app_nil_r. reflexivity.
     + rewrite p_repeat, census_kw, census_eol, census_app, H, census_indent, census_kw, census_sp, census_pexp. cbn [coms_s]. rewrite app_nil_r. reflexivity.
-    + rewrite p_if, census_kw, census_sp, census_app, census_pexp, census_sp, census_kw, census_eol, census_app, H, census_app, H0, census_indent.
-      cbn [census norm_com coms_s]. rewrite app_nil_r, lc_app. reflexivity.
+    + rewrite p_if. destruct (if_guard c t r) as [s1|] eqn:G.
+      * destruct (if_guard_coms t r s1 G) as [Ct ->]. cbn [coms_s coms_e]. rewrite Ct.
+        rewrite census_kw, census_sp, census_app, census_pexp, census_sp, census_kw, census_sp, census_app, census_psimple. reflexivity.
+      * rewrite census_kw, census_sp, census_app, census_pexp, census_sp, census_kw, census_eol, census_app, H, census_app, H0, census_indent.
+        cbn [census norm_com coms_s]. rewrite app_nil_r, lc_app. reflexivity.
     + rewrite p_numfor, census_kw, census_sp, census_ident, census_sp, census_kw, census_sp, census_app, census_pexp, census_kw, census_sp, census_app, census_pexp, census_app.
       assert (E : census (match st with Some x => kw "," :: sp :: pexp x | None => [] end) = []) by (destruct st; [rewrite census_kw, census_sp; apply census_pexp|reflexivity]).
       rewrite E, census_sp, census_kw, census_eol, census_app, H, census_indent. cbn [census norm_com coms_s]. rewrite app_nil_r. reflexivity.
@@ -478,7 +575,7 @@ Proof.
       assert (E : census (match m with Some n => [kw ":"; TIdent n] | None => [] end) = []) by (destruct m; reflexivity).
       rewrite E, census_app, census_pparams. cbn [app coms_s]. apply census_fbody. exact H.
     + rewrite p_localfunction, census_kw, census_sp, census_kw, census_sp, census_ident, census_app, census_pparams. cbn [app coms_s]. apply census_fbody. exact H.
-    + destruct es; cbn [pstmt]; [reflexivity|]. rewrite census_kw, census_sp. apply census_pexps.
+    + destruct es; cbn [pstmt psimple]; [reflexivity|]. rewrite census_kw, census_sp. apply census_pexps.
     + reflexivity.
     + reflexivity.
     + rewrite p_else, census_indent, census_kw, census_eol. apply H.
@@ -649,9 +746,38 @@ Definition Iw (i : item) : Prop := wf_item i -> forall d, run true (pitem c d i)
 Definition Bw (b : blk) : Prop := wf_blk b -> forall d, run true (pblk c d b) = Some true.
 Lemma run_block_end b d : Bw b -> wf_blk b -> run true (pblk c (S d) b ++ indent c d ++ [kw "end"]) = Some false.
 Proof. intros H W. rewrite run_app, H by exact W. rewrite run_indent. reflexivity. Qed.
+(* the statement of a collapsed block *)
+Lemma run_psimple s b0 : wf_stmt s -> run b0 (psimple c s) = Some false \/ psimple c s = [].
+Proof.
+  intros W. destruct s; try (right; reflexivity); left; cbn [psimple].
+  - destruct es as [|e es']; rewrite run_kw, run_sp; [apply inline_pnames_false|].
+    rewrite run_app, inline_pnames_false, run_sp, run_kw, run_sp. apply inline_pexps_false.
+  - rewrite run_app. cbn [wf_stmt] in W.
+    rewrite (inline_commas_ne (map pexp vs)); [|destruct vs; [contradiction|discriminate]|apply Forall_map; apply Forall_forall; intros x _; apply inline_pexp].
+    rewrite run_sp, run_kw, run_sp. apply inline_pexps_false.
+  - apply inline_pexp.
+  - destruct es as [|e es']; [reflexivity|]. rewrite run_kw, run_sp. apply inline_pexps_false.
+  - reflexivity.
+Qed.
+Lemma simple_blk_wf b s1 : simple_blk b = Some s1 -> wf_blk b -> wf_stmt s1.
+Proof.
+  destruct b as [is tl]. destruct is as [|[l bl s t] [|i2 r]]; try discriminate; cbn [simple_blk].
+  - destruct l; [|discriminate]. destruct t; [discriminate|]. destruct tl; [|discriminate]. destruct (simple_stmt s); [|discriminate].
+    intros E W. injection E as <-. rewrite wf_blk_eq in W. destruct W as [[(_ & W & _) _] _]. exact W.
+  - destruct l; [|discriminate]. destruct t; discriminate.
+Qed.
+Lemma run_collapsed s1 r : wf_stmt s1 -> run false (sp :: psimple c s1 ++ sp :: kw "end" :: r) = run false r.
+Proof.
+  intros W. rewrite run_sp. destruct (run_psimple s1 false W) as [E|E].
+  - rewrite run_app, E, run_sp, run_kw. reflexivity.
+  - rewrite E. cbn [app]. rewrite run_sp, run_kw. reflexivity.
+Qed.
 Lemma run_fbody b d : Bw b -> wf_blk b -> run false (fbody c d b) = Some false.
 Proof.
-  intros H W. unfold fbody. destruct (blk_empty b); [rewrite run_sp; reflexivity|]. rewrite run_eol. apply run_block_end; assumption.
+  intros H W. unfold fbody. destruct (blk_empty b); [rewrite run_sp; reflexivity|].
+  destruct (fun_guard c b) as [s1|] eqn:G.
+  - unfold fun_guard in G. destruct (collapse_fun (collapse0 c)); [|discriminate]. apply (run_collapsed s1 []). apply (simple_blk_wf b s1 G W).
+  - rewrite run_eol. apply run_block_end; assumption.
 Qed.
 Opaque pblk.
 Lemma discipline_all : (forall s, Pw s) /\ (forall b, Bw b).
@@ -660,18 +786,21 @@ Proof.
   { induction 1 as [|i r Hi Hr IH]; intros W d; [reflexivity|]. destruct W as [W1 W2]. cbn [map List.concat]. rewrite run_app, Hi by exact W1. apply IH. exact W2. }
   assert (H : forall s, Pw s); [|split; [exact H|]].
   - apply (stmt_ind' Pw Qw Iw Bw); unfold Pw, Qw, Iw, Bw; intros.
-    + (* SLocal *) destruct es as [|e es']; cbn [pstmt]; rewrite run_kw, run_sp.
+    + (* SLocal *) destruct es as [|e es']; cbn [pstmt psimple]; rewrite run_kw, run_sp.
       * apply inline_pnames_false.
       * rewrite run_app, inline_pnames_false, run_sp, run_kw, run_sp. apply inline_pexps_false.
-    + (* SAssign *) cbn [pstmt]. rewrite run_app. cbn [wf_stmt] in H.
+    + (* SAssign *) cbn [pstmt psimple]. rewrite run_app. cbn [wf_stmt] in H.
       rewrite (inline_commas_ne (map pexp vs)); [|destruct vs; [contradiction|discriminate]|apply Forall_map; apply Forall_forall; intros x _; apply inline_pexp].
       rewrite run_sp, run_kw, run_sp. apply inline_pexps_false.
-    + (* SCall *) cbn [pstmt]. apply inline_pexp.
+    + (* SCall *) cbn [pstmt psimple]. apply inline_pexp.
     + (* SDo *) rewrite p_do, run_kw, run_eol. apply run_block_end; assumption.
     + (* SWhile *) rewrite p_while, run_kw, run_sp, run_app, inline_pexp, run_sp, run_kw, run_eol. apply run_block_end; assumption.
     + (* SRepeat *) rewrite p_repeat, run_kw, run_eol, run_app, H by exact H0. rewrite run_indent. rewrite run_kw, run_sp. apply inline_pexp.
-    + (* SIf *) destruct H1 as [W1 W2]. rewrite p_if, run_kw, run_sp, run_app, inline_pexp, run_sp, run_kw, run_eol.
-      rewrite run_app, H by exact W1. rewrite run_app, H0 by exact W2. rewrite run_indent. reflexivity.
+    + (* SIf *) destruct H1 as [W1 W2]. rewrite p_if. destruct (if_guard c t r) as [s1|] eqn:G.
+      * unfold if_guard in G. destruct (collapse_if (collapse0 c)); [|discriminate]. destruct r; try discriminate.
+        rewrite run_kw, run_sp, run_app, inline_pexp, run_sp, run_kw. apply (run_collapsed s1 []). apply (simple_blk_wf t s1 G W1).
+      * rewrite run_kw, run_sp, run_app, inline_pexp, run_sp, run_kw, run_eol.
+        rewrite run_app, H by exact W1. rewrite run_app, H0 by exact W2. rewrite run_indent. reflexivity.
     + (* SNumFor *) rewrite p_numfor, run_kw, run_sp. rewrite run_plain by reflexivity. rewrite run_sp, run_kw, run_sp, run_app, inline_pexp, run_kw, run_sp, run_app, inline_pexp.
       rewrite run_app. assert (E : run false (match st with Some x => kw "," :: sp :: pexp x | None => [] end) = Some false).
       { destruct st; [rewrite run_kw, run_sp; apply inline_pexp|reflexivity]. }
@@ -683,7 +812,7 @@ Proof.
       rewrite E, run_pparams. apply run_fbody; assumption.
     + (* SLocalFunction *) rewrite p_localfunction, run_kw, run_sp, run_kw, run_sp. rewrite run_plain by reflexivity. rewrite run_pparams.
       apply run_fbody; assumption.
-    + (* SReturn *) destruct es as [|e es']; cbn [pstmt]; [reflexivity|]. rewrite run_kw, run_sp. apply inline_pexps_false.
+    + (* SReturn *) destruct es as [|e es']; cbn [pstmt psimple]; [reflexivity|]. rewrite run_kw, run_sp. apply inline_pexps_false.
     + (* SBreak *) reflexivity.
     + (* NoElse *) reflexivity.
     + (* Else *) rewrite p_else, run_indent, run_kw, run_eol. apply H. exact H0.
@@ -858,7 +987,7 @@ Example calls_ok_rejects : calls_ok CallForm.NoneM false (ECall (EName (str "f")
   /\ calls_ok CallForm.Always false (ECall (EName (str "f")) true [EStr (str "s")]) = false
   /\ calls_ok CallForm.NoneM false (EField (ECall (EName (str "f")) true [EStr (str "s")]) (str "x")) = false.
 Proof. repeat split; reflexivity. Qed.
-Definition cfg_witness : cfg0 := {| windows0 := false; spaces0 := false; width0 := 4; style0 := QuoteMore.AutoDouble; callp0 := CallForm.Always; space0 := CallForm.SNever |}.
+Definition cfg_witness : cfg0 := {| windows0 := false; spaces0 := false; width0 := 4; style0 := QuoteMore.AutoDouble; callp0 := CallForm.Always; space0 := CallForm.SNever; collapse0 := CNever |}.
 Theorem norm0_not_idempotent_refuted : exists c p, norm0 c (norm0 c p) <> norm0 c p.
 Proof. exists cfg_witness, witness_not_idempotent. vm_compute. discriminate. Qed.
 (* ... while the call-form pass alone is idempotent on every tree (CallForm.call_form_idempotent, site by site) *)
